@@ -59,12 +59,14 @@ def returns(fn, F, cut_loops=False):
     P = Prov(fn, F, cut_loops=cut_loops)
     cn = Canon(fn, P)
     out = []
-    for b, i, st in fn.stmts():
-        if st['k'] == 'assign' and st['lhs']['l'] == 0 and not st['lhs']['p']:
+    from .rules_g import ret_def_sites
+    for b, i in ret_def_sites(fn):
+        if i == -1:
+            t = fn.blocks[b]['term']
+            out.append((tuple(select_conds(fn, P, b, cn)), cn.c(norm(P.local(t['dest']['l'], t['target'], 0))) if t['target'] is not None else '?'))
+        else:
+            st = fn.blocks[b]['stmts'][i]
             out.append((tuple(select_conds(fn, P, b, cn)), cn.c(norm(P.rvalue(st['rv'], b, i, 0)))))
-    for b, t in fn.calls():
-        if t['dest']['l'] == 0 and not t['dest']['p']:
-            out.append((tuple(select_conds(fn, P, b, cn)), cn.c(norm(P.local(0, t['target'], 0))) if t['target'] is not None else '?'))
     return out
 
 
